@@ -8,7 +8,7 @@ EXTRACT = ("theories/Extract/XC16.v", "c16", ["entry_draw", "entry_lines", "entr
 PYX = {}
 RULE = ("quick: every end-point pair of a 7x7 grid (thorough: 13x13) through draw_line (write order recorded by a "
         "__setitem__ spy) and through get_line_pts in batches of 49 (169), plus random batches of 1-30 lines with "
-        "coordinates in [-40,60]; non-trivial = the batch contains a line with major delta >= 2 and 0 < minor delta "
+        "coordinates in [-40,60], plus batches whose end points are handed over as int8/uint8/int16/uint16/int32/int64/float64 arrays or lists with coordinates spanning the whole range of the dtype; non-trivial = the batch contains a line with major delta >= 2 and 0 < minor delta "
         "< major delta (remainder logic exercised); distinct by hash of the case")
 TRUSTED = ["modelled, not verified: NumPy fancy-index scatter (last write wins), boolean compaction, cumsum"]
 ASSUMPTIONS = ["coordinates are Python/NumPy ints without overflow (|coordinate| < 2^31)"]
@@ -43,8 +43,37 @@ def generate(ctx):
             elif u < 0.28:
                 r[2], r[3] = r[0], r[1]
         cases.append({"fn": "lines", "ls": ls.tolist()})
+    # end points handed over in every integer dtype get_line_pts accepts (the function normalises to int;
+    # a narrow dtype used as-is would wrap in the remainder arithmetic): coordinates span the dtype's
+    # whole range, so 2*|major delta| exceeds the dtype's maximum
+    DT = {"int8": (-128, 127), "uint8": (0, 255), "int16": (-32768, 32767), "uint16": (0, 65535),
+          "int32": (-2 ** 31, 2 ** 31 - 1), "int64": (-2 ** 40, 2 ** 40), "list": (-300, 300), "float64": (-200, 200)}
+    for _ in range(ctx.n(160, 1600)):
+        dt = str(rng.choice(["int8", "int8", "uint8", "uint8", "int16", "uint16", "int32", "int64", "list", "float64"]))
+        lo, hi = DT[dt]
+        k = int(rng.choice([1, 2, 3, 6]))
+        ls = []
+        for _ in range(k):
+            # start anywhere in the range (biased to the extremes), span limited to 300 points per line
+            a = [int(rng.choice([lo, hi, int(rng.randint(max(lo, -10 ** 6), min(hi, 10 ** 6) + 1))])) for _ in range(2)]
+            span = int(rng.choice([0, 1, 5, 60, 130, 255, 300]))
+            b = [min(hi, max(lo, a[0] + int(rng.randint(-span, span + 1)))),
+                 min(hi, max(lo, a[1] + int(rng.randint(-span, span + 1))))]
+            ls.append([a[0], a[1], b[0], b[1]])
+        cases.append({"fn": "lines", "ls": ls, "dtype": dt})
+    for _ in range(ctx.n(2, 8)):
+        # int16 needs |major delta| > 16383 for 2*delta to leave the dtype
+        dt = str(rng.choice(["int16", "uint16"]))
+        lo, hi = DT[dt]
+        a = [int(rng.randint(lo, lo + 2000)), int(rng.randint(lo, hi))]
+        b = [a[0] + int(rng.randint(16500, 21000)), min(hi, max(lo, a[1] + int(rng.randint(-9000, 9000))))]
+        if rng.rand() < 0.5:
+            a, b = b, a
+        if rng.rand() < 0.5:
+            a, b = a[::-1], b[::-1]
+        cases.append({"fn": "lines", "ls": [[a[0], a[1], b[0], b[1]]], "dtype": dt})
     for c in cases:
-        ctx.count(c["fn"])
+        ctx.count(c["fn"] + ":" + c.get("dtype", "int"))
     return cases
 
 
@@ -70,7 +99,14 @@ def impl(case):
         on = np.argwhere(arr == 7) + [oy, ox]
         return {"pts": spy.w, "set": sorted(map(list, on.tolist()))}
     ls = np.array(case["ls"], int).reshape(-1, 4)
-    r = M.get_line_pts(ls[:, 0], ls[:, 1], ls[:, 2], ls[:, 3])
+    dt = case.get("dtype", "int")
+    if dt == "list":
+        args = [ls[:, k].tolist() for k in range(4)]
+    elif dt == "int":
+        args = [ls[:, k] for k in range(4)]
+    else:
+        args = [ls[:, k].astype(dt) for k in range(4)]
+    r = M.get_line_pts(*args)
     scalar = []
     for y0, x0, y1, x1 in ls.tolist():
         spy = _Spy()
@@ -177,18 +213,19 @@ def shrink_candidates(case):
                 yield {"fn": "draw", "l": m}
         return
     ls = case["ls"]
+    extra = {"dtype": case["dtype"]} if "dtype" in case else {}
     if len(ls) > 3:
         h = len(ls) // 2
-        yield {"fn": "lines", "ls": ls[:h]}
-        yield {"fn": "lines", "ls": ls[h:]}
+        yield dict({"fn": "lines", "ls": ls[:h]}, **extra)
+        yield dict({"fn": "lines", "ls": ls[h:]}, **extra)
     if len(ls) > 1:
         for k in range(len(ls)):
-            yield {"fn": "lines", "ls": ls[:k] + ls[k + 1:]}
+            yield dict({"fn": "lines", "ls": ls[:k] + ls[k + 1:]}, **extra)
     for n, l in enumerate(ls[:3]):
         for k in range(4):
             if l[k] != 0:
                 m = [list(x) for x in ls]; m[n][k] -= 1 if l[k] > 0 else -1
-                yield {"fn": "lines", "ls": m}
+                yield dict({"fn": "lines", "ls": m}, **extra)
 
 
 MANIFEST = {
